@@ -308,7 +308,7 @@ func vfHammerRound(e *vfEnv, r *vfResult, idx int, loopback bool) { //nolint:cyc
 	for _, h := range []*vfHammerAgent{ha, hb} {
 		h.calls.Range(func(k, v any) bool {
 			methods++
-			r.set("c10_api_methods_called", k.(string)) //nolint:forcetypeassert
+			r.set("c10_api_methods_called", k.(string))        //nolint:forcetypeassert
 			r.count("c10_api_calls", v.(*atomic.Int64).Load()) //nolint:forcetypeassert
 
 			return true
